@@ -57,6 +57,12 @@ def parseGet (j : Json) : GetResult :=
 
 def cfg : Cfg := JediModel.Props.C13.genCfg
 
+/-- result of the `self._obj.__iter__` fetch: computed by the model from the target description -/
+def iterAttrOf (j : Json) : GetResult :=
+  match j.getObjVal? "target" with
+  | .ok t => pyGetattr (parseTarget t) "__iter__"
+  | _ => parseGet (obj j "iterAttr")
+
 def handle (j : Json) : Json :=
   match str j "op" with
   | "static" =>
@@ -87,11 +93,11 @@ def handle (j : Json) : Json :=
     let (r, ev) := mixedSimpleGetitem cfg (parseTy (obj j "ty")) (bool j "unsafe")
     jobj [("reached", jbool r), ("events", jarr (ev.map (jstr ∘ evStr)))]
   | "iterlist" =>
-    let (o, ev) := pyIterList cfg (parseTy (obj j "ty")) (parseGet (obj j "iterAttr")) (bool j "annotated")
+    let (o, ev) := pyIterList cfg (parseTy (obj j "ty")) (iterAttrOf j) (bool j "annotated")
     jobj [("outcome", jstr (iterStr o)), ("events", jarr (ev.map (jstr ∘ evStr)))]
-  | "hasiter" => jarr ((hasIter cfg (parseTy (obj j "ty"))).map (jstr ∘ evStr))
+  | "hasiter" => jarr ((hasIter cfg (parseTy (obj j "ty")) (iterAttrOf j)).map (jstr ∘ evStr))
   | "pyiter" =>
-    jarr ((compiledPyIter cfg (parseTy (obj j "ty")) (parseGet (obj j "iterAttr")) (bool j "annotated")).map
+    jarr ((compiledPyIter cfg (parseTy (obj j "ty")) (iterAttrOf j) (bool j "annotated")).map
       (jstr ∘ evStr))
   | "bool" => jarr ((pyBool cfg (parseTy (obj j "ty"))).map (jstr ∘ evStr))
   | "flags" => jobj [("metaHitReportsGet", jbool cfg.metaHitReportsGet),
